@@ -107,8 +107,7 @@ Proof.
   intros v user s u o n idx V F H.
   destruct (step_success_inv _ _ _ _ _ H) as [u' [o0 [e [U [F' [A [D S]]]]]]].
   inv U. rewrite F in F'. inv F'.
-  assert (NE : deletes_empty_name v (RDelete (mkDel (Some n) idx None None)) = false) by (simpl; rewrite V; reflexivity).
-  destruct (decide_addr _ _ _ _ NE D) as [ta [AD M]].
+  destruct (decide_addr _ _ _ _ D) as [ta [AD M]].
   simpl in AD. rewrite V in AD. simpl in AD.
   destruct (mfield_of_name n) as [f|] eqn:MF; [|discriminate].
   destruct (idx_nat idx) as [i|] eqn:IX; [|discriminate]. simpl in AD. inv AD.
@@ -121,17 +120,16 @@ Qed.
 (* the same for the value-addressed 2.0 forms: the first instance equal to the current value is the one removed *)
 Theorem current_value_semantics : forall v user s u o n c,
   is_v2 v = true -> find_obj u s = Some o ->
-  deletes_empty_name v (RDelete (mkDel None None (Some (Some n, c)) None)) = false ->
   snd (step v user s (Some u) (RDelete (mkDel None None (Some (Some n, c)) None))) = Success ->
   exists f i o', mfield_of_name n = Some f /\ first_index c (mget f o) = Some i /\
     nth_error (mget f o) i = Some c /\ (forall j x, (j < i)%nat -> nth_error (mget f o) j = Some x -> x <> c) /\
     find_obj u (fst (step v user s (Some u) (RDelete (mkDel None None (Some (Some n, c)) None)))) = Some o' /\
     (forall j, nth_error (mget f o') j = if (j <? i)%nat then nth_error (mget f o) j else nth_error (mget f o) (S j)).
 Proof.
-  intros v user s u o n c V F NE H.
+  intros v user s u o n c V F H.
   destruct (step_success_inv _ _ _ _ _ H) as [u' [o0 [e [U [F' [A [D S]]]]]]].
   inv U. rewrite F in F'. inv F'.
-  destruct (decide_addr _ _ _ _ NE D) as [ta [AD M]].
+  destruct (decide_addr _ _ _ _ D) as [ta [AD M]].
   simpl in AD. rewrite V in AD. simpl in AD.
   destruct (mfield_of_name n) as [f|] eqn:MF; [|discriminate].
   destruct (first_index c (mget f o0)) as [i|] eqn:FI; [|discriminate]. simpl in AD. inv AD.
@@ -142,9 +140,9 @@ Proof.
   destruct R as [P _]. rewrite (protected_uid _ _ P). eapply find_obj_uid; eauto.
 Qed.
 
-(* after the repair of /repo a name can be deleted by its current value: any non-empty name text *)
+(* after the repairs of /repo a name can be deleted by its current value - any text, the empty one included *)
 Theorem name_deleted_by_current_value : forall v user s u o t,
-  is_v2 v = true -> find_obj u s = Some o -> t <> "" ->
+  is_v2 v = true -> find_obj u s = Some o ->
   snd (step v user s (Some u) (RDelete (mkDel None None (Some (Some "Name", VText t)) None))) = Success ->
   exists i o', first_index (VText t) (o_names o) = Some i /\ nth_error (o_names o) i = Some (VText t) /\
     (forall j x, (j < i)%nat -> nth_error (o_names o) j = Some x -> x <> VText t) /\
@@ -152,12 +150,10 @@ Theorem name_deleted_by_current_value : forall v user s u o t,
     (forall j, nth_error (o_names o') j = if (j <? i)%nat then nth_error (o_names o) j else nth_error (o_names o) (S j)) /\
     o_groups o' = o_groups o /\ o_asi o' = o_asi o /\ o_sensitive o' = o_sensitive o /\ protected o' = protected o.
 Proof.
-  intros v user s u o t V F T H.
-  assert (NE : deletes_empty_name v (RDelete (mkDel None None (Some (Some "Name", VText t)) None)) = false).
-  { simpl. rewrite V. simpl. destruct (String.eqb_spec t ""); [contradiction|reflexivity]. }
+  intros v user s u o t V F H.
   destruct (step_success_inv _ _ _ _ _ H) as [u' [o0 [e [U [F' [A [D S]]]]]]].
   inv U. rewrite F in F'. inv F'.
-  destruct (decide_addr _ _ _ _ NE D) as [ta [AD M]].
+  destruct (decide_addr _ _ _ _ D) as [ta [AD M]].
   simpl in AD. rewrite V in AD. simpl in AD.
   destruct (first_index (VText t) (o_names o0)) as [i|] eqn:FI; [|discriminate]. simpl in AD. inv AD.
   simpl in M. destruct M as [L [SH [LEN [P [_ [G SE]]]]]].
